@@ -6,11 +6,26 @@ use std::cell::Cell;
 
 thread_local! {
     static STEPS: Cell<u64> = const { Cell::new(0) };
+    static LIMIT: Cell<u64> = const { Cell::new(0) };
 }
 
 #[inline]
 pub(crate) fn step() {
-    STEPS.with(|s| s.set(s.get() + 1));
+    let n = STEPS.with(|s| {
+        s.set(s.get() + 1);
+        s.get()
+    });
+    let limit = LIMIT.with(|l| l.get());
+    if limit != 0 && n > limit {
+        STEPS.with(|s| s.set(0));
+        panic!("capy_verif: parser step limit of {limit} exceeded");
+    }
+}
+
+/// A logical-step budget: once more than `limit` steps were taken since the last
+/// `take_steps`, the parser panics (0 = no limit). Turns a hang into an observable event.
+pub fn set_step_limit(limit: u64) {
+    LIMIT.with(|l| l.set(limit));
 }
 
 /// Returns the number of steps since the last call and resets the counter
